@@ -449,3 +449,24 @@ fn _fill_signs(signs: &mut [i8], m: usize, n: usize, map: &LDLDataMap) {
         p += thisp;
     }
 }
+
+/// verification hook: assemble a KKT matrix (either triangle) with its maps and sign vector
+#[cfg(feature = "verif")]
+pub fn verif_assemble_kkt<T: FloatT>(
+    P: &CscMatrix<T>,
+    A: &CscMatrix<T>,
+    cones: &CompositeCone<T>,
+    tril: bool,
+) -> crate::verif_hooks::KktSnapshot<T> {
+    let shape = if tril {
+        MatrixTriangle::Tril
+    } else {
+        MatrixTriangle::Triu
+    };
+    let (KKT, map) = assemble_kkt_matrix(P, A, cones, shape);
+    let (m, n) = (A.nrows(), P.nrows());
+    let p = map.sparse_maps.pdim();
+    let mut dsigns = vec![1_i8; n + m + p];
+    _fill_signs(&mut dsigns, m, n, &map);
+    crate::verif_hooks::KktSnapshot::new(m, n, p, &KKT, &map, &dsigns, T::zero())
+}
